@@ -85,6 +85,13 @@ def many_rules(x):
 
 PROBE_VAR = 3
 
+lam_one = lambda x: x + 1
+lam_two = lambda x: x * 2
+
+@memento_function(cluster="pc")
+def lam_user(x):
+    return lam_one(x) + lam_two(x)
+
 from twosigma.memento.partition import InMemoryPartition
 
 @memento_function(cluster="probe", version="1")
@@ -342,6 +349,12 @@ def _():
     app = importlib.import_module("ppa.app")
     keys = [r.key for r in app.fa.hash_rules()]
     return any(k.startswith("Function;") and k.endswith("ppb.lib:hb") for k in keys)
+
+@probe("anonymous_helpers_distinct")
+def _():
+    _cache_env("lam1", 64)
+    keys = [r.key for r in lam_user.hash_rules() if r.key.startswith("Function;") and "lam_user" in r.key.split(";")[1]]
+    return len(keys) == 2 and len(set(keys)) == 2
 
 @probe("setconst_canonical")
 def _():
